@@ -1,6 +1,6 @@
 SPECIFICATION Spec
 CONSTANTS
-  Inputs = {"zine", "rot", "text", "walden", "form", "simple3", "nested5", "tree5", "objstm4"}
+  Batches <- BatchesAll
   MaxLen = 1
   Emit = TRUE
 INVARIANTS TypeOK EmitCase
